@@ -210,6 +210,24 @@ def check_dispatch(ctx, F, cfg, spec, P="C11"):
                         seen.setdefault(name, []).append((s, p))
             elif v:
                 seen.setdefault(v.split("::")[-1], []).append((s, p))
+    # every result and every error exit depends on the command byte alone (besides the empty-message guard): a guard on the
+    # length or content of the bytes that follow would make parameter-less / unsupported / unassigned commands payload-dependent
+    def literal_ok(c):
+        if c.kind == "match":
+            sc = A.subst(c.scrut)
+            if sc.get("k") == "try":
+                return True   # the dispatch match (validated per arm below)
+            return False
+        if c.kind == "expr":
+            d = A.desc(c.e)
+            return d in ("core::slice::<impl [T]>::is_empty(param:data)",)
+        if c.kind == "let":
+            return "split_first(param:data)" in A.desc(c.init) if c.init is not None else False
+        return False
+    for s in list(A.sites) + list(A.tries):
+        badc = [A.cond_str(c) for c in s.conds if not literal_ok(c)]
+        ctx.oblige(P + "|dispatch|byte-only|%d" % s.seq, not badc,
+                   "a result of Request::deserialize depends on %s, not only on the command byte" % badc, cfg=cfg, where=H.line(s.node) if s.node else fn["sp"], nontrivial=False)
     ctx.oblige(P + "|dispatch|unknown-byte", bool(disp_closure_ok),
                "a byte that is not a recognised command is no longer reported as CtapMappingError::InvalidCommand(op)", cfg=cfg, where=fn["sp"])
     for name in variants:
